@@ -9,13 +9,27 @@
    instructions.  Calls naming an unknown table and registrations after the
    deadline are refused without changing anything."
 
-  Setting as in C19: `Reachable s` quantifies over all settings `2 ≤ min ≤ max`
-  and all histories of valid operations of regulator × environment (DESIGN §5).
+  Setting: `ReachableAny s` (Model/RegulatorEnv.lean) — the WIDEST domain: `s` is
+  obtained from a fresh regulator with ANY setting (max, min) with `1 ≤ max`
+  (no relation between `min` and `max`, `min = 0` included; with `max = 0` the
+  Go code divides by zero in `float64` and converts `±Inf`/`NaN` to `int`, which
+  is outside the model) by ANY finite sequence of operations of regulator ×
+  environment valid in the wide sense `okAny` (DESIGN §5): registrations of
+  fresh ids, `SetStatus` to ANY status at ANY time (also back to `Pending` on a
+  running competition, which the Go code accepts), syncs in which a table
+  eliminates any sub-multiset of its members and then releases exactly the
+  number it is told to, dispatch choices that `getAvailableTable` can make.
+  `Totality` (Proofs/RegTotal.lean, restated at the end of this file) shows that
+  these conditions never block a history: in every such state every fresh
+  registration, every status change and every sync of every table with every
+  elimination subset is possible with SOME choices / release.
+  Every theorem here therefore also holds on the narrower domain `Reachable` of
+  C19/C20 (`Reachable.any`).
   Quiescent points = between operations, i.e. after the environment has carried
   out the instructions of the operation (a sync includes the `ReleasePlayers`
   it triggers).
 -/
-import Pokerface.Proofs.RegProps
+import Pokerface.Proofs.RegTotal
 
 namespace Pokerface.C09
 open Pokerface Reg RSys
@@ -24,21 +38,21 @@ open Pokerface Reg RSys
     alive players, its table count is the number of its table records and of real tables, and
     its sheet `(id, PlayerCount)` is exactly the real sheet `(id, number of members)` — same
     tables, same order of creation, same counts. -/
-theorem counts_agree {s : RSys} (h : Reachable s) :
+theorem counts_agree {s : RSys} (h : ReachableAny s) :
     s.r.playerCount = s.env.alive.length ∧
     s.r.tableCount = s.r.tables.length ∧
     s.r.tables.length = s.env.members.length ∧
     s.r.tables.map (fun t => (t.id, t.count)) = s.env.members.map (fun e => (e.1, (e.2.length : Int))) := by
-  have hS := SInv.of_reachable h
+  have hS := SInv0.of_reachable h
   refine ⟨hS.pc, hS.rinv.wf.tc, ?_, hS.sim⟩
   have := congrArg List.length hS.sim
   simpa [tview, mview] using this
 
 /-- **counts_agree**, per table: `GetTable(t).PlayerCount` is the real number of members of `t`,
     and `GetTable(t)` is `nil` exactly for the tables that do not exist. -/
-theorem count_of_table {s : RSys} (h : Reachable s) (t : Nat) :
+theorem count_of_table {s : RSys} (h : ReachableAny s) (t : Nat) :
     (s.r.findTable t).map (fun tb => tb.count) = (s.env.membersOf t).map (fun ms => (ms.length : Int)) := by
-  have hS := SInv.of_reachable h
+  have hS := SInv0.of_reachable h
   have := sim_find s.r.tables s.env.members t hS.sim
   simp only [Reg.findTable, Env.membersOf, Option.map_map]
   exact this
@@ -46,14 +60,14 @@ theorem count_of_table {s : RSys} (h : Reachable s) (t : Nat) :
 /-- **conservation**: the alive players are exactly the queue together with all table
     memberships (as multisets), and no id occurs twice — so every registered, not eliminated
     player is in exactly one place, and nobody else is anywhere. -/
-theorem conservation {s : RSys} (h : Reachable s) :
+theorem conservation {s : RSys} (h : ReachableAny s) :
     s.env.alive.Perm (s.r.queue ++ s.env.seated) ∧ (s.r.queue ++ s.env.seated).Nodup ∧ s.env.alive.Nodup := by
-  have hS := SInv.of_reachable h
+  have hS := SInv0.of_reachable h
   exact ⟨hS.cons, hS.cons.nodup_iff.1 hS.nodup, hS.nodup⟩
 
 /-- **conservation**, spelled out: an id is alive iff it is queued or sits at some table; never
     both; never at two tables (`Nodup` of the concatenation of all memberships). -/
-theorem exactly_one_place {s : RSys} (h : Reachable s) (p : Nat) :
+theorem exactly_one_place {s : RSys} (h : ReachableAny s) (p : Nat) :
     (p ∈ s.env.alive ↔ (p ∈ s.r.queue ∨ ∃ e ∈ s.env.members, p ∈ e.2)) ∧
     ¬ (p ∈ s.r.queue ∧ ∃ e ∈ s.env.members, p ∈ e.2) ∧
     s.r.queue.Nodup ∧ s.env.seated.Nodup := by
@@ -73,11 +87,11 @@ theorem exactly_one_place {s : RSys} (h : Reachable s) (p : Nat) :
     an existing table is not refused, and the number of players it asks the table to release is
     between 0 and what the table has after the eliminations and arrivals.  (`elim`/`stay` is any
     split of the members into eliminated and remaining ones.) -/
-theorem release_feasible {s : RSys} (h : Reachable s) (t : Nat) (ms elim stay : List Nat)
+theorem release_feasible {s : RSys} (h : ReachableAny s) (t : Nat) (ms elim stay : List Nat)
     (hm : s.env.membersOf t = some ms) (hp : ms.Perm (elim ++ stay)) :
     (s.syncAnswer t elim).2.1 = none ∧ 0 ≤ (s.syncAnswer t elim).2.2.1 ∧
     (s.syncAnswer t elim).2.2.1 ≤ ((stay ++ (s.syncAnswer t elim).2.2.2).length : Int) := by
-  obtain ⟨r1, relc, nw, t0, hans, _, _, h0, hle, _⟩ := (SInv.of_reachable h).sync_known t elim stay ms hm hp
+  obtain ⟨r1, relc, nw, t0, hans, _, _, h0, hle, _⟩ := (SInv0.of_reachable h).sync_known t elim stay ms hm hp
   rw [hans, List.length_append]
   exact ⟨rfl, h0, by simpa using hle⟩
 
@@ -87,10 +101,10 @@ theorem release_feasible {s : RSys} (h : Reachable s) (t : Nat) (ms elim stay : 
     the operation.  Hence every id handed out was removed from the queue in this very step and
     nobody was dropped; and since no id occurs twice in that list, nobody is handed out twice or
     handed out and still queued. -/
-theorem handout_once {s : RSys} (h : Reachable s) (op : EOp) (hok : s.ok op) :
+theorem handout_once {s : RSys} (h : ReachableAny s) (op : EOp) (hok : s.okAny op) :
     s.r.queue ++ s.incoming op = s.returned op ++ handed (s.step op).r.calls ++ (s.step op).r.queue ∧
     (s.returned op ++ handed (s.step op).r.calls ++ (s.step op).r.queue).Nodup := by
-  have hS := SInv.of_reachable h
+  have hS := SInv0.of_reachable h
   obtain ⟨hS', hF⟩ := hS.step_full op hok
   refine ⟨hF.handout, ?_⟩
   rw [← hF.handout, List.nodup_iff_count]
@@ -104,7 +118,7 @@ theorem handout_once {s : RSys} (h : Reachable s) (op : EOp) (hok : s.ok op) :
     simp only [incoming]
     split
     · simp only [List.count_nil]; omega
-    · obtain ⟨hnd, hfresh, _⟩ := hok
+    · obtain ⟨hnd, hfresh, _⟩ : s.ok (.add ps ch) := hok
       have c3 := List.nodup_iff_count.1 hnd a
       by_cases ha : a ∈ ps
       · have : a ∉ s.env.alive := fun hin => hfresh a ha (hS.sub a hin)
@@ -119,7 +133,7 @@ theorem handout_once {s : RSys} (h : Reachable s) (op : EOp) (hok : s.ok op) :
     | some ms =>
       simp only []
       have hok' := hok
-      simp only [ok, hm] at hok'
+      simp only [okAny, ok, hm] at hok'
       rw [show s.syncAnswer t elim = ((s.syncAnswer t elim).1, (s.syncAnswer t elim).2.1,
         (s.syncAnswer t elim).2.2.1, (s.syncAnswer t elim).2.2.2) from rfl] at hok'
       simp only [] at hok'
@@ -160,13 +174,13 @@ theorem unknown_table_refused (r : Reg) (t : Nat) (out : Int) (hf : r.findTable 
 
 /-- in reachable states the regulator knows exactly the tables that exist: a table unknown to the
     environment is unknown to the regulator (so the call above IS refused), and conversely. -/
-theorem unknown_iff {s : RSys} (h : Reachable s) (t : Nat) :
+theorem unknown_iff {s : RSys} (h : ReachableAny s) (t : Nat) :
     s.env.membersOf t = none ↔ s.r.findTable t = none :=
-  (SInv.of_reachable h).unknown_iff t
+  (SInv0.of_reachable h).unknown_iff t
 
 /-- **unknown_table_refused**, system form: a sync naming a non-existing table leaves regulator
     and environment unchanged. -/
-theorem unknown_table_refused_sys {s : RSys} (h : Reachable s) (t : Nat) (elim stay rel keep ch : List Nat)
+theorem unknown_table_refused_sys {s : RSys} (h : ReachableAny s) (t : Nat) (elim stay rel keep ch : List Nat)
     (hm : s.env.membersOf t = none) :
     SameState s.r (s.step (.sync t elim stay rel keep ch)).r ∧
     (s.step (.sync t elim stay rel keep ch)).r.calls = [] ∧
@@ -203,11 +217,12 @@ theorem late_registration_refused_sys (s : RSys) (ps ch : List Nat) (hs : s.r.st
   rfl
 
 /-- converse: before the deadline a registration (with admissible dispatch choices) is accepted. -/
-theorem registration_accepted {s : RSys} (h : Reachable s) (ps ch : List Nat) (hok : s.ok (.add ps ch))
+theorem registration_accepted {s : RSys} (h : ReachableAny s) (ps ch : List Nat) (hok : s.okAny (.add ps ch))
     (hs : s.r.status ≠ .afterRegDeadline) :
     (s.r.addPlayers ps ch).2 = none ∧
     (s.step (.add ps ch)).env.alive = s.env.alive ++ ps := by
-  have he := (addPlayers_spec s.r ps ch (SInv.of_reachable h).rinv hs hok.2.2).1
+  have hok' : s.ok (.add ps ch) := hok
+  have he := (addPlayers_spec0 s.r ps ch (SInv0.of_reachable h).rinv hs hok'.2.2).1
   refine ⟨he, ?_⟩
   simp only [RSys.step]
   generalize s.r.addPlayers ps ch = p at he
@@ -215,6 +230,47 @@ theorem registration_accepted {s : RSys} (h : Reachable s) (ps ch : List Nat) (h
   simp only at he
   subst he
   rfl
+
+/-! ### the domain is total: no history of tables that follow instructions is excluded
+
+The validity conditions of `okAny` constrain the inputs the model cannot compute itself (which
+table Go's map iteration offers to `dispatchPlayer`, which members a table eliminates or
+releases).  The three theorems below show that they never exclude a real history: whatever was
+done so far, every next call of the regulator alphabet is valid for SOME such inputs.  (The real
+run supplies the inputs it observed; K2 checks that the model accepts them.) -/
+
+/-- **totality, `AddPlayers`**: in every reachable state every batch of distinct, never registered
+    ids (any size, also empty) can be registered — in every phase (after the deadline it is
+    refused, which is a valid operation too). -/
+theorem registration_possible {s : RSys} (h : ReachableAny s) (ps : List Nat) (hnd : ps.Nodup)
+    (hfresh : ∀ p ∈ ps, p ∉ s.env.registered) : ∃ ch, s.okAny (.add ps ch) :=
+  h.add_total ps hnd hfresh
+
+/-- **totality, `SetStatus`**: in every reachable state the status can be set to ANY status,
+    `Pending` included. -/
+theorem status_change_possible {s : RSys} (h : ReachableAny s) (st : RStatus) :
+    ∃ ch, s.okAny (.status st ch) :=
+  h.status_total st
+
+/-- **totality, `SyncState` + `ReleasePlayers`**: in every reachable state, for EVERY table id
+    (existing or not) and EVERY split of the table's members into eliminated (`elim`) and
+    remaining (`stay`) ones — i.e. every elimination count `0 … |members|` and every choice of who
+    is eliminated — the sync is valid for some choice of released players (`rel`, of exactly the
+    length the regulator asked for), remaining players and dispatch choices. -/
+theorem sync_possible {s : RSys} (h : ReachableAny s) (t : Nat) (elim stay : List Nat)
+    (hsplit : ∀ ms, s.env.membersOf t = some ms → ms.Perm (elim ++ stay)) :
+    ∃ rel keep ch, s.okAny (.sync t elim stay rel keep ch) :=
+  h.sync_total t elim stay hsplit
+
+/-- **totality, which players are released**: moreover ANY choice of the released players will do —
+    every split `rel`/`keep` of the table's members after the arrivals in which `rel` has exactly
+    the length `SyncState` returned (such splits exist by `release_feasible`). -/
+theorem sync_possible_any_release {s : RSys} (h : ReachableAny s) (t : Nat) (elim stay rel keep : List Nat)
+    (hsplit : ∀ ms, s.env.membersOf t = some ms → ms.Perm (elim ++ stay))
+    (hrel : (stay ++ (s.syncAnswer t elim).2.2.2).Perm (rel ++ keep))
+    (hlen : (rel.length : Int) = (s.syncAnswer t elim).2.2.1) :
+    ∃ ch, s.okAny (.sync t elim stay rel keep ch) :=
+  h.sync_total_rel t elim stay rel keep hsplit hrel hlen
 
 /-! ### non-vacuity -/
 
@@ -225,8 +281,8 @@ def rebalance : List EOp :=
    .sync 1 [1,2,3,4,5,6] [7,8,9] [] [7,8,9] [],
    .sync 2 [] [10,11,12,13,14,15,16,17,18] [10,11] [12,13,14,15,16,17,18] [1]]
 
-example : Reachable ((RSys.init 9 6).run rebalance) :=
-  (Reachable.init 9 6 (by decide) (by decide)).run rebalance (by decide)
+example : ReachableAny ((RSys.init 9 6).run rebalance) :=
+  (ReachableAny.init 9 6 (by decide)).run rebalance (by decide)
 example : ((RSys.init 9 6).run rebalance).env.members =
     [(1, [7,8,9,10,11]), (2, [12,13,14,15,16,17,18]), (3, [19,20,21,22,23,24,25,26,27])] := by decide
 example : ((RSys.init 9 6).run rebalance).r.calls = [.assign 1 [10, 11]] := by decide
@@ -236,8 +292,8 @@ example : (((RSys.init 9 6).run (rebalance.take 3)).syncAnswer 2 []).2.2.1 = 2 :
 /-- a sync that receives a queued player (`returned` non-empty): 13 registrants at 6/5 leave player
     13 waiting; table 1 loses two players and is given player 13 -/
 def topUp : List EOp := [.add [1,2,3,4,5,6,7,8,9,10,11,12,13] [], .status .normal []]
-example : Reachable ((RSys.init 6 5).run topUp) :=
-  (Reachable.init 6 5 (by decide) (by decide)).run topUp (by decide)
+example : ReachableAny ((RSys.init 6 5).run topUp) :=
+  (ReachableAny.init 6 5 (by decide)).run topUp (by decide)
 example : ((RSys.init 6 5).run topUp).r.queue = [13] := by decide
 example : ((RSys.init 6 5).run topUp).ok (.sync 1 [1,2] [3,4,5,6] [] [3,4,5,6,13] []) := by decide
 example : ((RSys.init 6 5).run topUp).returned (.sync 1 [1,2] [3,4,5,6] [] [3,4,5,6,13] []) = [13] := by decide
@@ -247,5 +303,47 @@ example : ((RSys.init 6 5).run topUp).env.membersOf 900 = none := by decide
 example : ((RSys.init 6 5).run (topUp ++ [.status .afterRegDeadline []])).r.status = .afterRegDeadline := by decide
 example : (((RSys.init 6 5).run (topUp ++ [.status .afterRegDeadline []])).r.addPlayers [14] []).2
     = some .afterRegDeadline := by decide
+
+/-! ### non-vacuity on the parts of the domain that `Reachable` (C19/C20) does not have -/
+
+/-- a competition that is set back to `Pending` while running: registrations pile up in the
+    queue, a sync hands two of them to table 1, the restart dispatches two more to table 1.
+    (This is the history on which CAPACITY fails, `C19.capacity_fails_after_return_to_pending`;
+    conservation and the counters are intact.) -/
+def backToPending : List EOp :=
+  [.status .normal [], .add [1,2,3,4,5,6,7,8] [], .sync 1 [1,2] [3,4] [] [3,4] [],
+   .status .pending [], .add [9,10] [], .sync 1 [] [3,4] [] [3,4,9,10] [], .add [11,12] [],
+   .status .normal [1]]
+
+example : ReachableAny ((RSys.init 4 2).run backToPending) :=
+  (ReachableAny.init 4 2 (by decide)).run backToPending (by decide)
+example : ¬ (RSys.init 4 2).allOk backToPending := by decide
+example : ((RSys.init 4 2).run backToPending).env.members =
+    [(1, [3,4,9,10,11,12]), (2, [5,6,7,8])] := by decide
+example : ((RSys.init 4 2).run backToPending).r.playerCount = 10 := by decide
+/-- pending with open tables: the sync really handed queued players over -/
+example : ((RSys.init 4 2).run (backToPending.take 5)).returned (.sync 1 [] [3,4] [] [3,4,9,10] []) = [9,10] := by
+  decide
+
+/-- settings outside `2 ≤ min ≤ max`: 1/1 (three one-seat tables; an eliminated player's seat is
+    refilled by the next registrant), 2/3 (`min > max`: no table is ever opened), 3/0 (`min = 0`:
+    a broken table's player is moved, a single late registrant gets a table of his own) -/
+def oneOne : List EOp := [.status .normal [], .add [1,2,3] [], .sync 2 [2] [] [] [] [], .add [4] [2]]
+example : ReachableAny ((RSys.init 1 1).run oneOne) :=
+  (ReachableAny.init 1 1 (by decide)).run oneOne (by decide)
+example : ((RSys.init 1 1).run oneOne).env.members = [(1, [1]), (2, [4]), (3, [3])] := by decide
+
+def minAboveMax : List EOp := [.add [1,2,3,4,5,6,7] [], .status .normal []]
+example : ReachableAny ((RSys.init 2 3).run minAboveMax) :=
+  (ReachableAny.init 2 3 (by decide)).run minAboveMax (by decide)
+example : ((RSys.init 2 3).run minAboveMax).r.queue = [1,2,3,4,5,6,7] := by decide
+
+def minZero : List EOp := [.status .normal [], .add [1,2,3,4] [], .sync 1 [1] [2] [2] [] [2], .add [5] []]
+example : ReachableAny ((RSys.init 3 0).run minZero) :=
+  (ReachableAny.init 3 0 (by decide)).run minZero (by decide)
+example : ((RSys.init 3 0).run minZero).env.members = [(2, [3,4,2]), (3, [5])] := by decide
+
+/-- totality: hypotheses satisfiable, e.g. the sync of table 2 with one elimination after `topUp` -/
+example : ((RSys.init 6 5).run topUp).env.membersOf 2 = some [7,8,9,10,11,12] := by decide
 
 end Pokerface.C09
